@@ -1,5 +1,6 @@
 import DiscretModel.Lemmas.DailyLogRun
 import DiscretModel.Model.Sync
+import DiscretModel.Lemmas.SyncBatches
 /-
 C09 on the replica model: under `Defects.none` every write of the model marks every `(room, entity, day)`
 whose stored signatures it changes; hence local writes, ingested rows and ingested deletion records
@@ -453,9 +454,8 @@ theorem ingestNode_idsNodup {d : Defects} (rights : Rights) {r : Replica} (hn : 
 theorem applyNTombs_winv {d : Defects} (h1 : d.syncDeletionLocalDayUnmarked = false)
     (rights : Rights) {dst : Replica} (h : WInv dst.sigs noPending dst.log) (ts : List NTomb) :
     WInv (applyNTombs d rights dst ts).sigs noPending (applyNTombs d rights dst ts).log := by
-  unfold applyNTombs
-  refine foldl_preserves' (fun r : Replica => WInv r.sigs noPending r.log) _ _ _ h ?_
-  intro r t hr
+  refine applyNTombs_induct d rights ts (fun r : Replica => WInv r.sigs noPending r.log) dst h ?_
+  intro r t _ hr
   unfold applyNTomb
   simp only [h1, Bool.false_eq_true, ↓reduceIte]
   refine winv_step' (r := r) (marks := [kNode t.room t.ent t.ddate, kNode t.room t.ent t.mdate] ++
